@@ -183,7 +183,7 @@ def check(prop, tier, run: Run, replay_case=None):
     run.assumptions += ["contributions strictly positive (50 lattice units), isothermal or outermost utilities, film coefficients 1 and 2 alternating",
                         "the independent interval decomposition and its logarithm are computed in the harness; TLC re-checks every log-mean value against a root-free bracket and the area sum in fixed point"]
     # ---- part 1
-    r = _tlc(dict(GRID, HasTrace=False, DoEmit=True), invs=["C15_AnnuitiesSumToOne", "C15_CostIncreasesWithArea", "EmitCase"])
+    r = _tlc(dict(GRID, HasTrace=False, DoEmit=True), invs=["C15_AnnuitiesSumToOne", "C15_FactorDecreasesWithLife", "C15_CostIncreasesWithArea", "EmitCase"])
     run.add_tlc(r, "cost laws")
     if r.violated:
         run.machinery_errors.append(f"spec/AreaCost.tla violates {r.violated}")
@@ -204,6 +204,14 @@ def check(prop, tier, run: Run, replay_case=None):
         ann = compute_annual_capital_cost(c1, i, n)
         if abs(ann * sum((1 + i) ** -k for k in range(1, n + 1)) - c1) > 1e-9 * max(1.0, c1):
             run.violation("C15.annuities_sum_to_one", case, dict(got=ann))
+        # a life need not be a whole number of years: the factor for n + 1/2 years lies strictly between those for n and n + 1
+        # (TLC supplied both as exact rationals), and the annual cost is the capital cost times the factor of that life
+        crf_next = case["crfNext"][0] / case["crfNext"][1]
+        half = compute_annual_capital_cost(c1, i, n + 0.5)
+        if c1 > 0 and crf_next > 0 and not (crf_next * c1 * (1 + 1e-12) < half < (case["crf"][0] / case["crf"][1]) * c1 * (1 - 1e-12)):
+            run.violation("C15.annualisation_uses_the_given_life", case, dict(life=n + 0.5, got=half, lower=crf_next * c1, upper=case["crf"][0] / case["crf"][1] * c1))
+        if c1 > 0 and abs(half - c1 * compute_capital_recovery_factor(i, n + 0.5)) > 1e-9 * c1:
+            run.violation("C15.annualisation_uses_the_given_life", case, dict(life=n + 0.5, got=half))
         for c_exp in (0.6, 1.0, 0.5):
             if b and not compute_capital_cost(float(A), N, a, b, c_exp) < compute_capital_cost(float(A) * 1.5, N, a, b, c_exp):
                 run.violation("C15.cost_increases_with_area", case, dict(exponent=c_exp))
